@@ -6952,10 +6952,9 @@ class Rect(Shape):
         ):
             GraphicObject.reify(self)
             Transformable.reify(self)
-            self.x *= scale_x
-            self.y *= scale_y
-            self.x += translate_x
-            self.y += translate_y
+            # (not in place: an unrendered Length may be shared with a copy of this shape)
+            self.x = self.x * scale_x + translate_x
+            self.y = self.y * scale_y + translate_y
             self.transform *= Matrix.translate(-translate_x, -translate_y)
             self.rx = scale_x * self.rx
             self.ry = scale_y * self.ry
@@ -7181,10 +7180,9 @@ class _RoundShape(Shape):
         ):
             GraphicObject.reify(self)
             Transformable.reify(self)
-            self.cx *= scale_x
-            self.cy *= scale_y
-            self.cx += translate_x
-            self.cy += translate_y
+            # (not in place: an unrendered Length may be shared with a copy of this shape)
+            self.cx = self.cx * scale_x + translate_x
+            self.cy = self.cy * scale_y + translate_y
             self.transform *= Matrix.translate(-translate_x, -translate_y)
             self.rx = scale_x * self.rx
             self.ry = scale_y * self.ry
